@@ -108,7 +108,7 @@ func (d decl) addr(port string, tlsOn bool) string {
 var (
 	hostsQuick    = []string{"a.test", "b.a.test", "*.a.test", "*.*.test", "*.test", "127.0.0.1", "[::1]", "0.0.0.0", ""}
 	hostsThorough = []string{"[::]", "*.b.a.test", "localhost"}
-	pathsQuick    = []string{"", "/", "/x", "/x/", "/x/y", "/xy"}
+	pathsQuick    = []string{"", "/", "/x", "/x/", "/x/y", "/xy", "/\u00e9"}
 	pathsThorough = []string{"/X"}
 )
 
@@ -336,7 +336,7 @@ type expect struct {
 	Nest  bool // an acceptable site has a path prefix below the root
 }
 
-var reqPaths = []string{"/", "/x", "/xz", "/x/", "/x/y", "/x/y/z", "/xy", "/X", "/%78", "/%78/%79", "/x%2Fy", "/y?p=/x/y"}
+var reqPaths = []string{"/", "/x", "/xz", "/x/", "/x/y", "/x/y/z", "/xy", "/X", "/%78", "/%78/%79", "/x%2Fy", "/y?p=/x/y", "/%C3%A9", "/%c3%a9/y", "/\u00e9/z"}
 
 func concretise(h string) string { return strings.ReplaceAll(h, "*", "q") }
 
